@@ -52,7 +52,9 @@ func (b *verifC08Builder) build() *yaml.Node {
 		s("outputs"), yMap(s(b.nm("jout")), s("${{ "+b.nm("steps")+"."+b.nm("sid")+".outputs.x }}")),
 		s("strategy"), yMap(s("matrix"), yMap(
 			s(b.nm("mrow")), ySeq(yTagged("!!int", "1"), yTagged("!!int", "2")),
+			s(b.nm("mobj")), ySeq(yMap(s(b.nm("okey")), s("p"), s("other"), s("q")), yMap(s(b.nm("okey")), s("r"), s("other"), s("q"))),
 			s("include"), ySeq(yMap(s(b.nm("minc")), yTagged("!!int", "3"))),
+			s("exclude"), ySeq(yMap(s(b.nm("mobj")), yMap(s(b.nm("okey")), s("p")))),
 		)),
 		s("steps"), ySeq(
 			step(s("id"), s(b.nm("sid")), s("run"), s("echo ${{ "+b.nm("inputs")+"."+b.nm("inone")+" }} ${{ "+b.nm("secrets")+"."+b.nm("secone")+" }} ${{ "+b.nm("matrix")+"."+b.nm("mrow")+" }} ${{ matrix."+b.nm("minc")+" }} ${{ inputs."+b.nm("dinone")+" }}")),
@@ -60,6 +62,7 @@ func (b *verifC08Builder) build() *yaml.Node {
 			step(s("run"), s("echo ${{ "+b.nm("github")+"."+b.nm("sha")+" }} ${{ github['"+b.nm("ref")+"'] }} ${{ "+b.nm("contains")+"('a', 'b') }} ${{ "+b.nm("tojson")+"(github."+b.nm("event")+"."+b.nm("repository")+"['"+b.nm("name")+"']) }}")),
 			step(s("run"), s("echo ${{ fromJSON('{\""+b.jk("foo", "Foo")+"\": {\""+b.jk("bar", "BAR")+"\": 1}}')."+b.nm("foo")+"."+b.nm("bar")+" }} ${{ fromJSON('{\""+b.jk("foo", "Foo")+"\": 1}')['"+b.nm("foo")+"'] }}")),
 			step(s("uses"), s("actions/checkout@v4"), s("with"), yMap(s(b.nm("ref")), s("x"))),
+			step(s("run"), s("echo ${{ matrix."+b.nm("mobj")+"."+b.nm("okey")+" }} ${{ matrix.mobj['"+b.nm("okey")+"'] }}")),
 		),
 	)
 	job2 := yMap(
